@@ -619,6 +619,14 @@ def systematic_histories():
             hs.append([dict(base, op='call', method=method, dir=-1, dtype=d1), dict(base, op='call', method=method, dir=-1, dtype=d2)])
         hs.append([dict(base, op='call', method=method, dir=-1), dict(base, op='call', method=method, dir=1)])
         hs.append([dict(base, op='call', method=method, dir=1), dict(base, op='call', method=method, dir=-1)])
+        # the same values handed over in another documented form (tuple / list / ndarray: equal as cache keys)
+        for dt in ('complex64', 'complex128'):
+            for fm in ({'Q': 'array', 'samples': 'tuple', 'shift': 'tuple'}, {'Q': 'list', 'samples': 'list', 'shift': 'list'},
+                       {'Q': 'asis', 'samples': 'array', 'shift': 'array'}):
+                a = dict(base, op='call', method=method, dir=-1, dtype=dt)
+                b = dict(a, forms=fm)
+                hs.append([a, b])
+                hs.append([b, a])
         variants = []
         for ax in (0, 1):
             for key, val in (('shape', 6), ('samples', 7), ('shift', 1.5), ('Q', 2.37)):
